@@ -23,13 +23,14 @@ typedef struct cx {
   int id, started;
   uint64_t rng;
   long resumes;
+  size_t stack_sz;  // as requested from fiber_context_init
 } cx_t;
 static cx_t cxs[MAXC];
 static fiber_context_t main_ctx[2];  // per kernel thread
 static int ncx, steps_left, trial;
 static __thread int my_thread;
 static volatile int cur;  // index of the running context, -1 = main
-static vp_counter_t *c_swaps, *c_fresh, *c_trials, *c_cross_thread, *c_created, *c_destroyed;
+static vp_counter_t *c_swaps, *c_fresh, *c_trials, *c_cross_thread, *c_created, *c_destroyed, *c_deep, *c_deep_frames, *c_regrow;
 
 #if !defined(VP_ASAN) && defined(FIBER_STACK_MMAP)
 // stack mappings are tracked by interposing mmap/munmap (every stack released exactly once, with its own length)
@@ -114,6 +115,33 @@ static int next_target(cx_t* c) {
   return ncx > 1 ? t : -1;
 }
 
+// deep switches: the context recurses through patterned ~1.5 KB frames, switches away at the bottom, and after it has been resumed
+// first goes a few frames deeper still (a stack that grows on demand must grow from where the context really is) and then checks
+// every frame on its way up. Fixed-size stacks are used up to a third, growing (split) stacks well beyond their first segment.
+#define FRAME_WORDS 180
+static __attribute__((noinline)) void dive(cx_t* c, int depth, int bottom, int regrow, uint64_t tag, int t) {
+  volatile uint64_t frame[FRAME_WORDS];
+  int i;
+  for (i = 0; i < FRAME_WORDS; ++i) frame[i] = vp_mix(tag, ((uint64_t)depth << 16) | (uint64_t)i);
+  vp_add(c_deep_frames, 1);
+  if (depth == bottom) {
+    cur = t;
+    checked_swap(&c->ctx, t < 0 ? &main_ctx[my_thread] : &cxs[t].ctx, &c->rng, c->id);
+    if (regrow > 0) {
+      vp_add(c_regrow, 1);
+      dive(c, depth + 1, depth + regrow, 0, tag ^ 0x5555, -2);
+    }
+  } else if (t != -2 || depth < bottom) {
+    dive(c, depth + 1, bottom, regrow, tag, t);
+  }
+  for (i = 0; i < FRAME_WORDS; ++i)
+    if (frame[i] != vp_mix(tag, ((uint64_t)depth << 16) | (uint64_t)i)) {
+      vp_violation("C19", "ctx:stack-contents", "trial %d: context %d (stack size %zu): word %d of the frame at depth %d (of %d) changed while the context was switched out or grew its stack",
+                   trial, c->id, c->stack_sz, i, depth, bottom);
+      break;
+    }
+}
+
 void* ctx_body(void* arg) {
   cx_t* c = (cx_t*)arg;
   if (c->entry_arg != (uint64_t)(uintptr_t)c || c->self != c)
@@ -133,6 +161,25 @@ void* ctx_body(void* arg) {
     c->resumes++;
     const int t = next_target(c);
     const int was_thread = my_thread;
+    if ((vp_rand(&c->rng) & 7) == 0) {
+#if defined(FIBER_STACK_SPLIT)
+      size_t budget = 3 * c->stack_sz;
+      if (budget > 200000) budget = 200000;
+#else
+      size_t budget = c->stack_sz / 3;
+      if (budget > 200000) budget = 200000;
+#endif
+      const int maxd = (int)(budget / (FRAME_WORDS * 8 + 64));
+      if (maxd >= 3) {
+        const int bottom = 1 + (int)(vp_rand(&c->rng) % (unsigned)(maxd - 2));
+        int regrow = (int)(vp_rand(&c->rng) % 4);
+        if (bottom + regrow > maxd) regrow = 0;
+        vp_add(c_deep, 1);
+        dive(c, 0, bottom, regrow, vp_rand(&c->rng), t);
+        if (my_thread != was_thread) vp_add(c_cross_thread, 1);
+        continue;
+      }
+    }
     cur = t;
     checked_swap(&c->ctx, t < 0 ? &main_ctx[my_thread] : &cxs[t].ctx, &c->rng, c->id);
     if (my_thread != was_thread) vp_add(c_cross_thread, 1);
@@ -179,6 +226,9 @@ int main(int argc, char** argv) {
   c_cross_thread = vp_counter("ctx_resumed_on_other_thread");
   c_created = vp_counter("ctx_created");
   c_destroyed = vp_counter("ctx_destroyed");
+  c_deep = vp_counter("ctx_switches_from_deep_recursion");
+  c_deep_frames = vp_counter("ctx_patterned_frames_checked");
+  c_regrow = vp_counter("ctx_stack_grown_further_after_resume");
 #ifdef HAVE_MAP_TRACK
   pthread_spin_init(&maps_lock, 0);
 #endif
@@ -200,6 +250,7 @@ int main(int argc, char** argv) {
       cxs[i].id = i;
       cxs[i].rng = vp_mix(vp_cfg.seed, (uint64_t)trial * 1000 + (uint64_t)i);
       const size_t sz = sizes[vp_rand(&rng) % (sizeof(sizes) / sizeof(sizes[0]))];
+      cxs[i].stack_sz = sz;
       if (fiber_context_init(&cxs[i].ctx, sz, ctx_entry_stub, &cxs[i]) != FIBER_SUCCESS) {
         fprintf(stderr, "fiber_context_init failed\n");
         return 2;
